@@ -288,6 +288,16 @@ func gen(g *core.G) {
 			g.Emit("trans " + s(lg.Widen(b)) + " " + s(b) + " " + s(lg.Narrow(b)))
 		}
 	}
+	// (ii') the positional rules, exhaustively: every triple of Tuple / Array types whose declared types are shorter
+	// than, equal to or longer than the maximal sizes involved (thorough: the 96-type universe)
+	pos := lat.Positional(g.Thorough())
+	for _, a := range pos {
+		for _, b := range pos {
+			for _, cc := range pos {
+				g.Emit("trans " + s(a) + " " + s(b) + " " + s(cc))
+			}
+		}
+	}
 	// equality across the universe (mostly false; equal-but-different terms are what matters)
 	for i := 0; i < 2000*g.Scale; i++ {
 		g.Emit("eq " + s(pick(u1)) + " " + s(pick(u1)))
